@@ -6,6 +6,8 @@ import multiprocessing as mp
 
 from .. import core, gen, impl, progen
 
+SPECIAL_FROM = 0
+
 TRUST = [
     "Model/GlobalState.v: the compiler proper is an oracle that uses the constexpr evaluator only by calling it (hypothesis comp_ext); the evaluator is deterministic",
     "translator tools/pyt2coq/globals_.py (inventory of module-level mutable state: rebound globals, mutated containers, attribute writes through module objects)",
@@ -75,6 +77,16 @@ def request_pool(rng, tier):
         pool.append((f"# pytrapic: {tag}\ndef f(a):\n    return a + HASH('x')\ndb.Setting = f(d0.On)\n", V()))
     pool.append(({"": "from library import m\ndb.Setting = m.f(2)\ndb.Setting = m.f(d0.On)\n", "m": "def f(x):\n    return x * 3\n"}, V(append_version=False)))
     pool.append(({"": "# pytrapic: compact\nfrom library import m\ndb.Setting = m.f(2)\n", "m": "@constexpr\ndef f(x):\n    return x * 3\n"}, V(append_version=False)))
+    # the same main text with two versions of a library's constexpr function (the library changed between requests)
+    for body in ("x * 3", "x * 5 + 1"):
+        pool.append(({"": "from library import recipes\ndb.Setting = recipes.batch(4)\nd1.Setting = recipes.batch(d0.On > 1)\n",
+                      "recipes": f"@constexpr\ndef batch(x):\n    return {body}\ndef other(y):\n    return y + 1\n"}, V(append_version=False)))
+    # writes to the registers that the package also keeps as module-level objects
+    for s in ["sp = 0\npush(5)\n", "db.Setting = sp\n", "ra = 3\ndb.Setting = ra\n", "db.Setting = ra + sp\n", "r0 = 5\ndb.Setting = r0\n", "db.Setting = r0\n",
+              "pi2 = pi * 2\ndb.Setting = pi2\n"]:
+        pool.append((s, V(append_version=False)))
+    global SPECIAL_FROM
+    SPECIAL_FROM = len(pool) - 9
     for p in progen.generate(rng, 6 if tier == "quick" else 40):
         pool.append((p.text(), V(append_version=False, compact=rng.random() < 0.5, inline_functions=rng.random() < 0.5)))
     return pool
@@ -103,6 +115,10 @@ def main(tier, seed):
     # one history repeats one request many times, one alternates compact/verbose
     histories.append([3] * 6 + [4] * 3 + [3])
     histories.append([0, 1] * 6)
+    # the directed requests (library versions, register writes) in both orders and interleaved
+    sp_ = list(range(SPECIAL_FROM, SPECIAL_FROM + 9))
+    histories.append(sp_ + sp_[::-1])
+    histories.append([sp_[0], sp_[1], sp_[0], sp_[1]] + [sp_[2], sp_[3], sp_[2], sp_[4], sp_[5], sp_[2], sp_[6], sp_[7], sp_[6], sp_[8]])
     with ctx.Pool(6, maxtasksperchild=1) as p:
         served = p.map(serve_history, [[pool[i] for i in h] for h in histories], chunksize=1)
     total = 0
